@@ -324,6 +324,14 @@ def m_sum(it, x, start=0):
     return acc
 
 
+def m_chain(it, *parts):
+    """itertools.chain: the concatenation when every part is concrete, else a tagged value iterated part by part"""
+    conc = [p if isinstance(p, list) or (isinstance(p, tuple) and not (p and isinstance(p[0], str))) else it.concrete_iter(p) for p in parts]
+    if all(c is not None for c in conc):
+        return [x for c in conc for x in c]
+    return ('chain', list(parts))
+
+
 BUILTINS = {}
 for _n, _f in [('sum', m_sum), ('any', m_any), ('all', m_all), ('abs', m_abs), ('min', m_min), ('max', m_max), ('len', m_len), ('tuple', m_tuple), ('list', m_list),
                ('set', m_set), ('dict', m_dict), ('range', m_range), ('zip', m_zip), ('int', m_int),
@@ -333,6 +341,8 @@ BUILTINS['str'] = Model('str', lambda it, x='': x if isinstance(x, (str, FStr)) 
 BUILTINS['math'] = ModVal('math')
 BUILTINS['np'] = ModVal('np')
 BUILTINS['logging'] = ModVal('logging')
+BUILTINS['itertools'] = ModVal('itertools')
+BUILTINS[('itertools', 'chain')] = Model('itertools.chain', m_chain)
 BUILTINS[('math', 'sqrt')] = Model('math.sqrt', m_sqrt)
 BUILTINS[('math', 'ceil')] = Model('math.ceil', m_ceil)
 BUILTINS[('math', 'log')] = Model('math.log', m_log)
